@@ -583,7 +583,7 @@ std::vector<long> tables2(char const *what)
     r.push_back(p2); // second projection
   }
   vf::rng g(vf::hash_mix(vf::opts().seed, vf::hash_str(what)));
-  for (int i = 0; i < 1000; ++i)
+  for (int i = 0; i < 3000; ++i)
     r.push_back(static_cast<long>(g.below(static_cast<std::uint64_t>(n))));
   return r;
 }
@@ -1894,7 +1894,7 @@ void v_match_apply()
 {
   // all 3^9 functions V -> D in thorough; a stride through them in quick
   long const n = ipow(3, 9);
-  long const step = vf::tier<long>(7, 1);
+  long const step = vf::tier<long>(4, 1);
   [&] {
     ENTRY("variant::match");
     for (long t = 0; t < n; t += step)
@@ -2499,6 +2499,293 @@ void vf_slice_3()
   lo_applicative();
   lo_alternative();
   lo_sequence();
+}
+#endif
+
+#if VF_IN_SLICE(4)
+namespace
+{
+using ED = eit<E, D>;
+using EA = eit<E, A>;
+using EB = eit<E, B>;
+
+void le_functor()
+{
+  [&] {
+    LAW("either", "functor-identity");
+    row(entry, 0, [&] {
+      for (int e = 0; e < 6; ++e)
+        flavors1([&](auto fl) {
+          constexpr bool R = fl.value;
+          set_ops(e, R);
+          ED s1 = dec<ED>(e), s2 = dec<ED>(e);
+          law(lx, fl1<R>(), trace([&] { return fcppt::either::map(pass<R>(s1), ident{}); }), value_side(e));
+          law(lx, (std::string("failure/") + fl1<R>()).c_str(),
+              trace([&] { return fcppt::either::map_failure(pass<R>(s2), ident{}); }), value_side(e));
+        });
+    });
+  }();
+  [&] {
+    LAW("either", "functor-fusion");
+    for (long tf = 0; tf < 27; ++tf)
+      row(entry, tf, [&] {
+        tfn<A, D> f{1, tf};
+        for (long tg = 0; tg < 27; ++tg)
+        {
+          tfn<B, A> g{2, tg};
+          for (int e = 0; e < 6; ++e)
+            flavors1([&](auto fl) {
+              constexpr bool R = fl.value;
+              set_ops(tg, e, R);
+              ED s1 = dec<ED>(e), s2 = dec<ED>(e);
+              law(lx, fl1<R>(), trace([&] { return fcppt::either::map(fcppt::either::map(pass<R>(s1), f), g); }),
+                  trace([&] { return fcppt::either::map(pass<R>(s2), [&](auto &&x) { return g(f(FWD(x))); }); }));
+            });
+        }
+      });
+  }();
+  [&] {
+    LAW("either", "failure-functor-fusion");
+    for (long tf = 0; tf < 27; ++tf)
+      row(entry, tf, [&] {
+        tfn<B, E> f{1, tf};
+        for (long tg = 0; tg < 27; ++tg)
+        {
+          tfn<C, B> g{2, tg};
+          for (int e = 0; e < 6; ++e)
+            flavors1([&](auto fl) {
+              constexpr bool R = fl.value;
+              set_ops(tg, e, R);
+              ED s1 = dec<ED>(e), s2 = dec<ED>(e);
+              law(lx, fl1<R>(),
+                  trace([&] { return fcppt::either::map_failure(fcppt::either::map_failure(pass<R>(s1), f), g); }),
+                  trace([&] {
+                    return fcppt::either::map_failure(pass<R>(s2), [&](auto &&x) { return g(f(FWD(x))); });
+                  }));
+            });
+        }
+      });
+  }();
+  [&] {
+    LAW("either", "map-and-map_failure-commute");
+    for (long tf = 0; tf < 27; ++tf)
+      row(entry, tf, [&] {
+        tfn<A, D> f{1, tf};
+        for (long th = 0; th < 27; ++th)
+        {
+          tfn<B, E> h{2, th};
+          for (int e = 0; e < 6; ++e)
+            flavors1([&](auto fl) {
+              constexpr bool R = fl.value;
+              set_ops(th, e, R);
+              ED s1 = dec<ED>(e), s2 = dec<ED>(e);
+              law(lx, fl1<R>(), trace([&] { return fcppt::either::map(fcppt::either::map_failure(pass<R>(s1), h), f); }),
+                  trace([&] { return fcppt::either::map_failure(fcppt::either::map(pass<R>(s2), f), h); }));
+            });
+        }
+      });
+  }();
+}
+
+void le_monad()
+{
+  [&] {
+    LAW("either", "monad-left-identity");
+    for (long tf = 0; tf < 216; ++tf)
+      row(entry, tf, [&] {
+        tfn<EA, D> f{1, tf};
+        for (int x = 0; x < 3; ++x)
+        {
+          set_ops(x);
+          law(lx, "value", trace([&] { return fcppt::either::bind(fcppt::either::make_success<E>(D{x}), f); }),
+              trace([&] { return f(D{x}); }));
+        }
+      });
+  }();
+  [&] {
+    LAW("either", "monad-right-identity");
+    row(entry, 0, [&] {
+      for (int e = 0; e < 6; ++e)
+        flavors1([&](auto fl) {
+          constexpr bool R = fl.value;
+          set_ops(e, R);
+          ED s = dec<ED>(e);
+          law(lx, fl1<R>(), trace([&] {
+                return fcppt::either::bind(pass<R>(s), [](auto &&x) { return fcppt::either::make_success<E>(FWD(x)); });
+              }),
+              value_side(e));
+        });
+    });
+  }();
+  [&] {
+    LAW("either", "monad-associativity");
+    for (long tf = 0; tf < 216; ++tf)
+      row(entry, tf, [&] {
+        tfn<EA, D> f{1, tf};
+        for (long tg = 0; tg < 216; ++tg)
+        {
+          tfn<EB, A> g{2, tg};
+          for (int e = 0; e < 6; ++e)
+            flavors1([&](auto fl) {
+              constexpr bool R = fl.value;
+              set_ops(tg, e, R);
+              ED s1 = dec<ED>(e), s2 = dec<ED>(e);
+              law(lx, fl1<R>(), trace([&] { return fcppt::either::bind(fcppt::either::bind(pass<R>(s1), f), g); }),
+                  trace([&] {
+                    return fcppt::either::bind(pass<R>(s2), [&](auto &&x) { return fcppt::either::bind(f(FWD(x)), g); });
+                  }));
+            });
+        }
+      });
+  }();
+  [&] {
+    LAW("either", "join-is-bind-identity");
+    using EED = eit<E, ED>;
+    row(entry, 0, [&] {
+      for (int ee = 0; ee < fin<EED>::radix; ++ee)
+        flavors1([&](auto fl) {
+          constexpr bool R = fl.value;
+          set_ops(ee, R);
+          EED s1 = dec<EED>(ee), s2 = dec<EED>(ee);
+          law(lx, fl1<R>(), trace([&] { return fcppt::either::join(pass<R>(s1)); }),
+              trace([&] { return fcppt::either::bind(pass<R>(s2), ident{}); }));
+        });
+    });
+  }();
+  [&] {
+    LAW("either", "map-is-bind-make_success");
+    for (long tf = 0; tf < 27; ++tf)
+      row(entry, tf, [&] {
+        tfn<A, D> f{1, tf};
+        for (int e = 0; e < 6; ++e)
+          flavors1([&](auto fl) {
+            constexpr bool R = fl.value;
+            set_ops(e, R);
+            ED s1 = dec<ED>(e), s2 = dec<ED>(e);
+            law(lx, fl1<R>(), trace([&] { return fcppt::either::map(pass<R>(s1), f); }), trace([&] {
+                  return fcppt::either::bind(pass<R>(s2), [&](auto &&x) { return fcppt::either::make_success<E>(f(FWD(x))); });
+                }));
+          });
+      });
+  }();
+  [&] {
+    LAW("either", "bind-is-join-map");
+    for (long tf = 0; tf < 216; ++tf)
+      row(entry, tf, [&] {
+        tfn<EA, D> f{1, tf};
+        for (int e = 0; e < 6; ++e)
+          flavors1([&](auto fl) {
+            constexpr bool R = fl.value;
+            set_ops(e, R);
+            ED s1 = dec<ED>(e), s2 = dec<ED>(e);
+            law(lx, fl1<R>(), trace([&] { return fcppt::either::bind(pass<R>(s1), f); }),
+                trace([&] { return fcppt::either::join(fcppt::either::map(pass<R>(s2), f)); }));
+          });
+      });
+  }();
+}
+
+void le_applicative()
+{
+  [&] {
+    LAW("either", "apply1-is-map");
+    for (long tf = 0; tf < 27; ++tf)
+      row(entry, tf, [&] {
+        tfn<A, D> f{1, tf};
+        for (int e = 0; e < 6; ++e)
+          flavors1([&](auto fl) {
+            constexpr bool R = fl.value;
+            set_ops(e, R);
+            ED s1 = dec<ED>(e), s2 = dec<ED>(e);
+            law(lx, fl1<R>(), trace([&] { return fcppt::either::apply(f, pass<R>(s1)); }),
+                trace([&] { return fcppt::either::map(pass<R>(s2), f); }));
+          });
+      });
+  }();
+  [&] {
+    LAW("either", "apply2-is-bind-map");
+    for (long t : tables2("law/either/apply2"))
+      row(entry, t, [&] {
+        tfn<A, D, B> f{1, t};
+        for (int e1 = 0; e1 < 6; ++e1)
+          for (int e2 = 0; e2 < 6; ++e2)
+          {
+            set_ops(e1, e2);
+            ED const a = dec<ED>(e1);
+            eit<E, B> const b = dec<eit<E, B>>(e2);
+            law(lx, "const&,const&", trace([&] { return fcppt::either::apply(f, a, b); }), trace([&] {
+                  return fcppt::either::bind(
+                      a, [&](D const &x) { return fcppt::either::map(b, [&](B const &y) { return f(x, y); }); });
+                }));
+          }
+      });
+  }();
+  [&] {
+    LAW("either", "match-after-map");
+    // match(map(e, f), ff, sf) == match(e, ff, sf . f)
+    for (long tf = 0; tf < 27; ++tf)
+      row(entry, tf, [&] {
+        tfn<A, D> f{1, tf};
+        for (long t2 = 0; t2 < 27; ++t2)
+        {
+          tfn<B, E> ff{2, t2};
+          tfn<B, A> sf{3, (t2 * 7 + tf) % 27};
+          for (int e = 0; e < 6; ++e)
+          {
+            set_ops(t2, e);
+            ED const s = dec<ED>(e);
+            law(lx, "const&", trace([&] { return fcppt::either::match(fcppt::either::map(s, f), ff, sf); }),
+                trace([&] { return fcppt::either::match(s, ff, [&](D const &x) { return sf(f(x)); }); }));
+          }
+        }
+      });
+  }();
+  [&] {
+    LAW("either", "success_opt-after-from_optional");
+    row(entry, 0, [&] {
+      for (int o = 0; o < 4; ++o)
+        for (long t = 0; t < 3; ++t)
+        {
+          set_ops(o, t);
+          tfn<E> ff{1, t};
+          opt<D> const s = dec<opt<D>>(o);
+          traced l = trace([&] { return fcppt::either::success_opt(fcppt::either::from_optional(s, ff)); });
+          l.log.clear(); // the failure function is called for nothing; only the value is compared
+          law(lx, "const&", l, value_side(o));
+        }
+    });
+  }();
+}
+
+void le_sequence()
+{
+  LAW("either", "sequence-is-fold-of-apply");
+  auto const cs = containers(6);
+  for (std::size_t i = 0; i < cs.size(); ++i)
+    row(entry, static_cast<long>(i), [&] {
+      vf::extend_case(" container=%s", show_vec(cs[i]).c_str());
+      set_ops(static_cast<long>(i));
+      std::vector<ED> const s = dec_vec<ED>(cs[i]);
+      law(lx, "&&", trace([&] { return fcppt::either::sequence<std::vector<D>>(std::vector<ED>(s)); }), trace([&] {
+            eit<E, std::vector<D>> acc{std::vector<D>{}};
+            for (ED const &e : s)
+              acc = fcppt::either::apply(
+                  [](std::vector<D> &&v, D const &x) {
+                    v.push_back(x);
+                    return std::move(v);
+                  },
+                  std::move(acc), e);
+            return acc;
+          }));
+    });
+}
+}
+void vf_slice_4()
+{
+  le_functor();
+  le_monad();
+  le_applicative();
+  le_sequence();
 }
 #endif
 
